@@ -326,13 +326,17 @@ def main():
     disagreements = []   # model != impl
     pred_failures = []   # predicate false on the impl's behaviour
     bad_requests = 0
+    unmodelled = 0
     for (req, imp, tags), (model, verdict) in zip(cases, answers):
         if model == "bad-request" or verdict == "bad-request":
             bad_requests += 1
             continue
         if verdict == "false":
             pred_failures.append((req, imp, model))
-        if model != imp:
+        if model == "unmodelled":
+            # outside the modelled fragment (said so by the model itself): only the predicate applies
+            unmodelled += 1
+        elif model != imp:
             disagreements.append((req, imp, model, verdict))
     if bad_requests:
         raise MachineryError("%d requests were not understood by fudrv (codec mismatch), e.g. %r" % (
@@ -394,6 +398,7 @@ def main():
             "harness_counters": stats,
             "timing_s": timing,
             "disagreements": len(disagreements),
+            "outside_modelled_fragment": unmodelled,
             "impl_predicate_failures": len(pred_failures),
             "known_finding_hits": {k: 1 for k in known_hits},
             "exhaustive": bool(info.get("exhaustive", False)),
